@@ -221,9 +221,21 @@ def _post_apply(mon, call):
         mon.out_of_domain(name)
         return
     for a in (_assignments(syms, 1) if syms else [None]):
-        v = _np_of(vec, a).ravel()
+        v = _np_of(vec, a)
+        if v.ndim == 2 and v.shape[1] > 1:
+            # a block of column vectors (e.g. the matrix accumulated so far): the operation acts on every column
+            if v.shape[0] != ln or n > 8:
+                mon.out_of_domain(name)
+                return
+            got = _np_of(call.result, a)
+            if got.shape != v.shape:
+                mon.violation("apply-vector", f"{op} applied to a {v.shape} block returned shape {got.shape}")
+                return
+            mon.note("apply:block-of-columns")
+        else:
+            v = v.ravel()
+            got = _np_of(call.result, a).ravel()
         ref = L.embed(GC.gate_np(op.gate, a), tuple(op.qubit_indices), n) @ v
-        got = _np_of(call.result, a).ravel()
         d = L.maxdiff(got, ref)
         if d > TOL * max(1.0, float(np.abs(ref).max())):
             mon.violation("apply-vector", f"{op} applied to {np.round(v, 4).tolist()} at {a}: max diff {d:.3e}")
